@@ -28,12 +28,16 @@ Found(c) == c.method \in Real /\ c.form = "reg" /\ c.method \in Exposed(c.cfg)
 Required(m) == LET s == Sig[m] IN
                IF Len(s) > 0 /\ s[Len(s)] = "ptr" THEN Len(s) - 1 ELSE Len(s)
 
+\* three wrongly typed values per declared type, among them the near misses (a string spelling a number or a
+\* boolean where one is declared, a number with a fraction, 0 for false, an array for an object)
+Wrong == {"wrong", "wrong2", "wrong3"}
+
 ParamsOK(c) ==
     LET n == Len(Sig[c.method]) IN
     CASE c.shape \in {"absent", "null"} -> Required(c.method) = 0
       [] c.shape \in {"object", "string", "number"} -> FALSE
       [] c.shape = "array" -> /\ c.arity <= n /\ c.arity >= Required(c.method)
-                              /\ ~(c.dev > 0 /\ c.devk = "wrong")      \* a JSON null is not a type error
+                              /\ ~(c.dev > 0 /\ c.devk \in Wrong)      \* a JSON null is not a type error
 
 \* [code, ran]
 Expected(c) == IF ~Found(c) THEN [code |-> -32601, ran |-> 0]
@@ -44,7 +48,7 @@ Shapes(m) ==
     LET n == IF m \in Real THEN Len(Sig[m]) ELSE 0 IN
     [shape : {"absent", "null", "object", "string", "number"}, arity : {-1}, dev : {0}, devk : {""}]
     \cup [shape : {"array"}, arity : 0..(n + 1), dev : {0}, devk : {""}]
-    \cup {s \in [shape : {"array"}, arity : 0..(n + 1), dev : 1..n, devk : {"wrong", "null"}] : s.dev <= s.arity}
+    \cup {s \in [shape : {"array"}, arity : 0..(n + 1), dev : 1..n, devk : Wrong \cup {"null"}] : s.dev <= s.arity}
 
 Cases ==
     UNION {{[cfg |-> cfg, method |-> m, form |-> f, shape |-> s.shape, arity |-> s.arity, dev |-> s.dev, devk |-> s.devk] :
